@@ -92,6 +92,10 @@ def rand_spec(rng, opts=None):
         callees = list(range(len(methods)))
         methods.append(dict(name=f"M{i}", nonexcl=rng.random() < 0.35, iw=0, ow=0, ready_free=rng.random() < 0.6, validate=None, combiner=None,
                             body=rand_body(rng, callees, 2, [rng.randint(1, 3)], opts), single_caller=False, nested_in=None))
+    if opts.get("fwd"):
+        for mi in range(1, len(methods)):
+            if rng.random() < 0.35:
+                methods[mi]["ready_on_run"] = rng.randrange(mi)
     trees = {}
     for mi, ms in enumerate(methods):
         t = set()
@@ -110,8 +114,9 @@ def rand_spec(rng, opts=None):
     for t in trs:
         t.pop("_used", None)
     if opts.get("nested_methods"):
+        fwd_involved = {ms["ready_on_run"] for ms in methods if ms.get("ready_on_run") is not None}
         for mi, ms in enumerate(methods):
-            if rng.random() < 0.2:
+            if rng.random() < 0.2 and ms.get("ready_on_run") is None and mi not in fwd_involved:
                 ms["nested_in"] = [rng.randrange(ntr), rng.random() < 0.4]
     if opts.get("single_caller"):
         for ms in methods:
@@ -151,6 +156,9 @@ def rand_spec(rng, opts=None):
         if ga > gb:
             a, b = b, a
         rels.append(["before", ["t", a], ["t", b], bool(opts.get("ready_dep") and rng.random() < 0.5)])
+    for mi, ms in enumerate(methods):
+        if ms.get("ready_on_run") is not None:
+            rels.append(["before", ["m", ms["ready_on_run"]], ["m", mi], False])
     return dict(methods=methods, transactions=trs, relations=rels, groups=groups, witness=bool(opts.get("witness")))
 
 
@@ -328,6 +336,9 @@ class Design(Elaboratable):
         ms = self.spec["methods"][mi]
         rdy = self.inp(f"rdy_{ms['name']}") if ms["ready_free"] else C(1)
         self.mready[mi] = rdy
+        if ms.get("ready_on_run") is not None:
+            # Forwarder-style readiness: ready also when an earlier body (declared with schedule_before) runs
+            rdy = rdy | self.M[ms["ready_on_run"]].run
         out = self.inp(f"out_{ms['name']}", ms["ow"]) if ms["ow"] else None
         self.mout[mi] = out
         kw = {}
